@@ -35,7 +35,8 @@ ASSUMPTIONS = [
     "concurrent oracle: a load is illegitimate only if a completed earlier access to the same index certainly populated the cache and no clear overlaps the interval in between",
     "readers are multiprocessing (fork) processes, as DataLoader workers are",
     "indices are non-negative python ints or numpy integers (what samplers / permutations produce); an index beyond the last sample must raise IndexError like the wrapped dataset "
-    "(the legacy iteration protocol `list(ds)` relies on it); negative indices are not driven",
+    "(the legacy iteration protocol `list(ds)` relies on it); negative indices (-n..-1, over a base that supports them) are driven, and loads are accounted per index as given: "
+    "the anchored cache state is index -> sample, so -1 and n-1 are two entries and each may be loaded once between clears",
 ]
 MONITORS = ["sequential_reads_checked", "concurrent_reads_checked", "loads_observed", "transform_applications_observed", "clears_observed", "concurrent_histories"]
 THOROUGH_SHARDS = 8
@@ -69,10 +70,13 @@ def _payload(kind, i):
 class Base(torch.utils.data.Dataset):
     """base dataset: deterministic payloads; every load is appended to an O_APPEND log (one os.write per record)"""
 
-    def __init__(self, n, kind, load_log_path, sleep_us=0, marker="base-attr"):
+    def __init__(self, n, kind, load_log_path, sleep_us=0, marker="base-attr", own_transform=False):
         self.n, self.kind, self.load_log_path, self.sleep_us = n, kind, load_log_path, sleep_us
         self.marker = marker
         self._fd = None
+        if own_transform:
+            # torchvision convention: the wrapped dataset applies its own `transform` attribute inside __getitem__
+            self.transform = _BaseTf()
 
     def _log(self, rec):
         if self._fd is None or self._pid != os.getpid():
@@ -81,15 +85,25 @@ class Base(torch.utils.data.Dataset):
         os.write(self._fd, (json.dumps(rec) + "\n").encode())
 
     def __getitem__(self, idx):
-        if not 0 <= int(idx) < self.n:
+        # like list / tensor backed datasets: -n..n-1 are valid, everything else raises IndexError
+        if not -self.n <= int(idx) < self.n:
             raise IndexError(f"index {idx} out of range for {self.n} samples")
         self._log({"p": os.getpid(), "i": int(idx), "t": time.monotonic_ns()})
         if self.sleep_us:
             time.sleep(self.sleep_us * 1e-6 * (1 + (idx % 3)))
-        return _payload(self.kind, int(idx))
+        sample = _payload(self.kind, int(idx) % self.n)
+        tr = self.__dict__.get("transform")
+        return tr(sample) if tr is not None else sample
 
     def __len__(self):
         return self.n
+
+
+class _BaseTf:
+    """the wrapped dataset's OWN transform (non-idempotent): applying it a second time on top of base[i] is visible"""
+
+    def __call__(self, sample):
+        return ("B", sample)
 
 
 class BaseWithGetitems(Base):
@@ -197,13 +211,16 @@ def gen_cases(run):
                 ops.append(["iter"])                          # list(cached): legacy __getitem__ iteration protocol, ends with IndexError
             elif r < 0.17:
                 ops.append(["loader", rng.choice([1, 2, 3])])  # one pass of torch DataLoader(cached, batch_size=k) in this process (batched fetch path)
+            elif r < 0.20:
+                ops.append(["get_neg", rng.randrange(nkeys)])  # the k-th sample from the end, addressed as cached[-k-1]
             elif r < 0.27:
                 ops.append(["get_np", rng.randrange(nkeys)])  # the same access with a numpy integer index (np.random.permutation, index tables)
             else:
                 ops.append(["get", rng.randrange(nkeys)])
         payload = PAYLOADS[i % len(PAYLOADS)]
         # in-place / KDTransform-typed transforms only on payloads that contain tensors or arrays (keeps the number of Manager processes down)
-        kinds = [True, "inplace", "kd", "inplace", False] if payload in ("tensor", "tuple", "dict", "nested", "ndarray") else [True, True, False]
+        # "base_tf": no post-cache transform, but the wrapped dataset has (and applies) a `transform` attribute of its own
+        kinds = [True, "inplace", "kd", "inplace", False, "base_tf"] if payload in ("tensor", "tuple", "dict", "nested", "ndarray") else [True, True, False, "base_tf"]
         yield {"kind": "seq", "payload": payload, "nkeys": nkeys, "ops": ops, "transform": rng.choice(kinds)}
     for i in range(n_conc):
         readers = rng.choice([2, 3, 4, 6, 8, 12]) if run.tier == "thorough" else rng.choice([2, 3, 4, 6])
@@ -214,8 +231,10 @@ def gen_cases(run):
 # ------------------------------------------------------------------------------------------------ sequential histories
 def _new_cache(tmp, kind, nkeys, transform=True, sleep_us=0, getitems=False):
     from kappadata.caching import SharedDictDataset
-    base = (BaseWithGetitems if getitems else Base)(nkeys, kind, str(tmp / "loads.log"), sleep_us=sleep_us)
+    base = (BaseWithGetitems if getitems else Base)(nkeys, kind, str(tmp / "loads.log"), sleep_us=sleep_us, own_transform=transform == "base_tf")
     tr = None
+    if transform == "base_tf":
+        return SharedDictDataset(base), base
     if transform == "kd":
         tr = _kd_marker(str(tmp / "transform.log"))
     elif transform == "inplace":
@@ -253,7 +272,11 @@ def run_case(run, spec):
         return _run_concurrent(run, spec)
     cached, tmp, tail_loads, tail_tr = _pooled(spec["payload"], spec["transform"])
     run.cover("seq", spec["payload"], spec["nkeys"], spec["transform"], any(o[0] == "clear" for o in spec["ops"]))
+    post = spec["transform"] not in (False, "base_tf")  # is there a post-cache transform?
+
     def _expected(q):
+        if spec["transform"] == "base_tf":
+            return ("B", _payload(spec["payload"], q))
         if spec["transform"] == "inplace":
             return ("T", _bump(_payload(spec["payload"], q)))
         return ("T", _payload(spec["payload"], q)) if spec["transform"] else _payload(spec["payload"], q)
@@ -323,12 +346,14 @@ def run_case(run, spec):
             if bad:
                 run.violation("seq:redundant-load", f"step {step}: DataLoader pass re-loaded indices {bad} that were loaded since the last clear (base {'with' if hasattr(cached.dataset, '__getitems__') else 'without'} __getitems__)")
                 return
-            if spec["transform"] and len(new_tr) != 8:
+            if post and len(new_tr) != 8:
                 run.violation("seq:transform-count", f"step {step}: DataLoader pass applied the post-cache transform {len(new_tr)} times for 8 samples")
                 return
             loaded_since_clear |= set(range(8))
             continue
-        i = op[1] if op[0] == "get" else np.int64(op[1])
+        i = op[1] if op[0] == "get" else (np.int64(op[1]) if op[0] == "get_np" else -op[1] - 1)
+        if i < 0:
+            run.count("negative_index_reads")
         try:
             got = cached[i]
         except Exception as e:
@@ -336,14 +361,14 @@ def run_case(run, spec):
             run.violation(f"seq:read-raises:{type(e).__name__}", f"step {step}: cached[{i}] raised {type(e).__name__}: {e} at {where}")
             return
         run.count("sequential_reads_checked")
-        if _digest(got) != want[i]:
+        if _digest(got) != (want[i] if i >= 0 else _digest(_expected(8 + i))):
             key = "seq:value:in-place-transform-reaches-the-cached-copy" if spec["transform"] == "inplace" else "seq:value"
             run.violation(key, f"payload={spec['payload']} transform={spec['transform']} step {step}: cached[{i}] = {repr(got)[:160]} differs from transform(base[{i}])")
             return
         new_loads, new_tr = tail_loads.new(), tail_tr.new()
         run.count("loads_observed", len(new_loads))
         run.count("transform_applications_observed", len(new_tr))
-        if spec["transform"] and len(new_tr) != 1:
+        if post and len(new_tr) != 1:
             run.violation("seq:transform-count", f"step {step}: cached[{i}] applied the post-cache transform {len(new_tr)} times")
             return
         if i in loaded_since_clear:
